@@ -381,12 +381,13 @@ def processLine (line : String) : M Unit := do
   | "crash" :: rest =>
     let d ← get
     let nm := if d.c.active then d.c.name else if d.w.active then d.w.name else "?"
-    IO.println s!"MISMATCH {nm} crash {" ".intercalate rest} tags="
+    let tags := if d.c.active then causeTags d.c.σ.badArg false false else []
+    IO.println s!"MISMATCH {nm} crash {" ".intercalate rest} tags={",".intercalate tags}"
     modify fun d => { d with c := {}, w := {}, nBad := d.nBad + 1 }
   -- weight watcher
   | ["wcase", n, w0] =>
     let w := tokNat w0
-    modify fun d => { d with w := { name := s!"weight-{n}", active := true, σ := wExec {} (.setWeight w), gW := w } }
+    modify fun d => { d with w := { name := s!"weight-{n}", active := true, σ := wInit w, gW := w } }
   | ["wcall", "add", v] =>
     modify fun d => { d with w := { d.w with σ := wExec d.w.σ (.add (tokNat v)), gW := d.w.gW + tokNat v } }
   | ["wcall", "create", id, delta] =>
